@@ -673,6 +673,21 @@ Result exec(const Plan& pl) {
         res.invalid = true;
         return res;
     }
+    // edge budget for this run: proportional to the documented cost of the whole history (O(L^2) per sample for RLS, O(L) for
+    // LMS/NLMS, plus the harness's own per-sample reference arithmetic), instead of the per-thread default, which long
+    // thorough-tier RLS histories (1e5 samples at L = 32) legitimately exceed
+    {
+        long double total = 0;
+        for (size_t i = 1; i < pl.ops.size(); ++i) {
+            const std::string& k = pl.ops[i].kind;
+            if (k == "frame" || k == "ones" || k == "pause" || k == "settle") {
+                total += std::max<long double>(0, static_cast<long double>(pl.ops[i].arg(0)));
+            }
+        }
+        const long double per_sample = (algo == 2) ? 2000.0L * L * L : 20000.0L * L;
+        const long double want = 4e9L + total * (per_sample + 50000.0L);
+        sim::set_edge_budget(sim::edges_now() + uint64_t(std::min<long double>(want, 4e15L)));
+    }
     const auto method = (algo == 1) ? dsplib::LmsType::NLMS : dsplib::LmsType::LMS;
     if (algo == 2) {
         if (cplx) {
